@@ -185,15 +185,141 @@ pub fn check_ku(case: &KuCase, info: &mut CaseInfo) -> Result<(), String> {
 	}
 }
 
+/// webpki as a second, independent revocation checker: a leaf with a given serial, issued by the
+/// CRL's issuer, is reported revoked iff that serial is listed. Restricted to what webpki's CRL
+/// support documents (no issuing distribution point, positive serials of at most 20 octets,
+/// verification time inside the CRL's and the certificates' windows).
+#[derive(Clone, Debug, Serialize, Deserialize, PartialEq, Eq, Hash)]
+pub struct WebpkiCase {
+	pub case: CrlCase,
+	/// probe a listed serial (by index) or a fresh unlisted one
+	pub probe_listed: Option<u8>,
+	pub unlisted: Hex,
+	pub leaf_key: KeySpec,
+}
+
+fn webpki_case() -> BoxedStrategy<WebpkiCase> {
+	(
+		gen::crl_spec(true),
+		proptest::collection::vec(gen::conformant_serial(), 1..5),
+		validator_key(),
+		gen::kid(),
+		prop::option::of(any::<u8>()),
+		gen::conformant_serial(),
+		validator_key(),
+		prop_oneof![Just(vec![]), Just(vec![6u8]), Just(vec![5u8, 6]), Just(vec![0u8, 5, 6])],
+	)
+		.prop_map(|(mut crl, serials, key, kid, probe_listed, unlisted, leaf_key, ku)| {
+			crl.idp = None;
+			crl.crl_number = Hex(vec![1, 2, 3]);
+			// one entry per generated serial, keeping the generated reasons / dates where present
+			let mut revoked = Vec::new();
+			for (i, s) in serials.into_iter().enumerate() {
+				let mut e = crl.revoked.get(i).cloned().unwrap_or(RevokedSpec {
+					serial: Hex(vec![]),
+					revocation_time: crl.this_update,
+					reason: None,
+					invalidity_date: None,
+				});
+				e.serial = s;
+				if e.reason == Some(ReasonSpec::RemoveFromCrl) {
+					e.reason = Some(ReasonSpec::Superseded);
+				}
+				revoked.push(e);
+			}
+			crl.revoked = revoked;
+			let mut spec = CertSpec::minimal();
+			spec.dn = DnSpec(vec![(DnTypeSpec::Org, DnValueSpec::new(StrKind::Utf8, "rv crl issuer"))]);
+			spec.is_ca = IsCaSpec::CaUnconstrained;
+			spec.kid = kid;
+			spec.key_usages = ku;
+			WebpkiCase { case: CrlCase { crl, issuer: IssuerCase { spec, key } }, probe_listed, unlisted, leaf_key }
+		})
+		.boxed()
+}
+
+pub fn check_webpki(w: &WebpkiCase, info: &mut CaseInfo) -> Result<(), String> {
+	use pki_types::{CertificateDer, UnixTime};
+	let c = &w.case;
+	// verification time inside [thisUpdate, nextUpdate) and after the epoch
+	let at = c.crl.this_update.unix;
+	// (webpki cannot represent instants before the epoch: the certificates' notBefore is a day earlier)
+	if at < 2 * 86400 || c.crl.next_update.unix <= at {
+		info.class("skipped:pre-epoch-crl");
+		return Ok(());
+	}
+	let listed: Vec<Vec<u8>> = c.crl.revoked.iter().map(|r| model::strip_zeros(&r.serial.0)).collect();
+	let (serial, expect_revoked) = match w.probe_listed {
+		Some(i) => (c.crl.revoked[i as usize % c.crl.revoked.len()].serial.0.clone(), true),
+		None => {
+			let s = w.unlisted.0.clone();
+			let is_listed = listed.contains(&model::strip_zeros(&s));
+			(s, is_listed)
+		},
+	};
+	info.nontrivial = true;
+	info.class(if expect_revoked { "probe:listed" } else { "probe:unlisted" });
+	let built = build_crl(c)?.map_err(|e| format!("CRL signed_by refused a valid request: {e}"))?;
+	let mut issuer_spec = c.issuer.spec.clone();
+	let (nb, na) = window_around(at, 86400, 86400 * 400);
+	issuer_spec.not_before = nb;
+	issuer_spec.not_after = na;
+	// the issuer certificate used as trust anchor must carry the same name and key as the CRL's issuer
+	let issuer_key = keys::make_key(&c.issuer.key)?;
+	let issuer_cert = mk::cert_params(&issuer_spec)?.self_signed(&issuer_key).map_err(|e| e.to_string())?;
+	let mut leaf = CertSpec::minimal();
+	leaf.dn = DnSpec(vec![(DnTypeSpec::CommonName, DnValueSpec::new(StrKind::Utf8, "rv revoked leaf"))]);
+	leaf.serial = Some(Hex(serial.clone()));
+	leaf.not_before = nb;
+	leaf.not_after = na;
+	leaf.kid = KidSpec::Pre(Hex(vec![1]));
+	leaf.sans = vec![SanSpec::Dns("leaf.example".into())];
+	let leaf_key = keys::make_key(&w.leaf_key)?;
+	let leaf_cert = mk::cert_params(&leaf)?.signed_by(&leaf_key, &issuer_cert, &issuer_key).map_err(|e| e.to_string())?;
+
+	let crl = webpki::OwnedCertRevocationList::from_der(built.crl.der()).map_err(|e| format!("webpki cannot parse the CRL: {e:?}"))?;
+	let crl = webpki::CertRevocationList::from(crl);
+	let crls = [&crl];
+	let revocation = webpki::RevocationOptionsBuilder::new(&crls)
+		.map_err(|_| "INTERNAL: no CRLs")?
+		.with_depth(webpki::RevocationCheckDepth::EndEntity)
+		.with_status_policy(webpki::UnknownStatusPolicy::Deny)
+		.with_expiration_policy(webpki::ExpirationPolicy::Enforce)
+		.build();
+	let leaf_der = CertificateDer::from(leaf_cert.der().to_vec());
+	let ee = webpki::EndEntityCert::try_from(&leaf_der).map_err(|e| format!("INTERNAL: webpki rejects the leaf: {e:?}"))?;
+	let root_der = CertificateDer::from(issuer_cert.der().to_vec());
+	let anchor = webpki::anchor_from_trusted_cert(&root_der).map_err(|e| format!("INTERNAL: anchor: {e:?}"))?;
+	let anchors = [anchor];
+	let r = ee.verify_for_usage(
+		webpki::ALL_VERIFICATION_ALGS,
+		&anchors,
+		&[],
+		UnixTime::since_unix_epoch(std::time::Duration::from_secs(at as u64)),
+		webpki::KeyUsage::server_auth(),
+		Some(revocation),
+		None,
+	);
+	let r = r.map(|_| ());
+	match (r, expect_revoked) {
+		(Err(webpki::Error::CertRevoked), true) => Ok(()),
+		(Ok(_), false) => Ok(()),
+		(Ok(_), true) => Err(format!("webpki reports serial {} as not revoked although the CRL lists it", crate::der::hex(&serial))),
+		(Err(webpki::Error::CertRevoked), false) => Err(format!("webpki reports unlisted serial {} as revoked", crate::der::hex(&serial))),
+		(Err(e), _) => Err(format!("webpki cannot use the CRL for a certificate of its issuer: {e:?}")),
+	}
+}
+
 pub fn def() -> PropertyDef {
 	let _ = mk::KU_ALL;
 	PropertyDef {
 		id: "C08",
 		rule: "CRL Specs (0..5 entries, all reason codes and none, invalidity dates, serials/CRL numbers with every leading-byte pattern, IDP with both scopes and none, four key-id methods, every issuer key algorithm) -> harness decoder -> reference model, plus OpenSSL X509_CRL_get0_by_serial on listed and unlisted (neighbouring) serials; refusal rules: thisUpdate/nextUpdate pairs at differences <0, 0, sub-second, 1 s, large across offsets; all 512 issuer key-usage sets. Non-trivial = entry extension or IDP present, pair within 2 s, every key-usage set.",
-		assumptions: vec!["the harness decoder", "OpenSSL's CRL lookup semantics (serial equality as integers)"],
+		assumptions: vec!["the harness decoder", "OpenSSL's CRL lookup semantics (serial equality as integers)", "webpki's CRL support (no issuing distribution point; end-entity depth)"],
 		subs: vec![
 			prop_sub("content", 80_000, 600_000, || crl_case(false, false), check_content),
 			prop_sub("order", 64_000, 400_000, order_case, check_order),
+			prop_sub("webpki-revocation", 16_000, 200_000, webpki_case, check_webpki),
 			sweep_sub("issuer-ku-sweep", |_| (0u16..512).map(|m| KuCase { ku_mask: m }).collect(), check_ku),
 		],
 	}
